@@ -260,7 +260,14 @@ class Gen:
                 # a conditional directly in the THEN branch (printing it needs parentheses)
                 then = ["if", self.bool_expr(max(d - 1, 0)), self.real_leaf(), self.real_leaf()]
                 self.features.add("if_in_then")
-            return ["if", self.bool_expr(d), then, self.real_expr(d)]
+            els = self.real_expr(d)
+            if self.chance(30):
+                # an elif chain: a conditional directly in the ELSE position
+                els = ["if", self.bool_expr(max(d - 1, 0)), self.real_leaf(), self.real_leaf()]
+                if self.chance(40):
+                    els[3] = ["if", self.bool_expr(0), self.real_leaf(), self.real_leaf()]
+                self.features.add("if_in_else")
+            return ["if", self.bool_expr(d), then, els]
         if k == "sub":
             a = self.choice(iarrs)
             return ["sub", V(a), [self.index_expr(self.defined[a][1])]]
